@@ -270,7 +270,7 @@ func (x *wrun) wexec(op c04Op) error {
 		}
 		x.locked(func() {
 			x.addAddress("imported_address", want)
-			x.remember(&addrRec{id: c04AddrID{Kind: "imp", N: op.ID}, scope: s, addr: want, hasPriv: true})
+			x.remember(&addrRec{id: c04AddrID{Kind: "imp", N: impSym(op.ID, op.Comp)}, scope: s, addr: want, hasPriv: true})
 		})
 		return nil
 	case "impscript":
